@@ -51,14 +51,19 @@ pub(crate) fn inject(prop: &str, s: &mut Scenario, r: &mut Rng, pool: &[KeyInfo]
     let kinds: &[&str] = match prop {
         "C01" => &["caller_empty", "caller_superset", "caller_disjoint", "caller_alias", "caller_alias_described", "caller_alias_described", "owner_sig_missing", "owner_sig_corrupt", "owner_sig_mislabel", "owner_sig_duplicated", "owner_sig_duplicated_apart", "layout_tampered", "layout_command_resplit", "not_a_layout", "extra_sig", "layout_keys_refiled", "layout_keys_refiled", "none"],
         "C06" => &["expired_1s", "expired_long", "expired_centuries", "expires_now", "expires_plus1", "expires_far_future", "offset_notation", "offset_expired", "sub_expired", "sub_expired_surplus", "sub_expired_surplus", "none"],
-        "C02" => &["link_removed", "link_wrong_signer", "link_mislabel", "link_tampered", "link_corrupt", "link_unauthorized", "key_not_in_table", "link_garbage", "link_misfiled", "link_cosigned_forgery", "cosigned_next_to_differing", "threshold_zero_nolinks", "threshold_zero_norules", "threshold_zero_norules", "threshold_zero_onelink", "threshold_raised", "link_wrong_type", "ghost_authorized_prefix", "ghost_authorized_prefix", "twin_unauthorized", "twin_unauthorized", "duplicate_step_unmet", "duplicate_step_unmet", "none"],
+        "C02" => &["link_removed", "link_wrong_signer", "link_mislabel", "link_tampered", "link_corrupt", "link_unauthorized", "key_not_in_table", "verifier_key_as_functionary", "verifier_key_as_functionary", "link_garbage", "link_misfiled", "link_cosigned_forgery", "cosigned_next_to_differing", "threshold_zero_nolinks", "threshold_zero_norules", "threshold_zero_norules", "threshold_zero_onelink", "threshold_raised", "link_wrong_type", "ghost_authorized_prefix", "ghost_authorized_prefix", "twin_unauthorized", "twin_unauthorized", "duplicate_step_unmet", "duplicate_step_unmet", "none"],
         "C07" => &["disagree_product_digest", "disagree_material_path", "disagree_extra_entry", "disagree_t1", "agree_extra_differs", "cosigned_next_to_differing", "disagree_path_spelling", "disagree_alias_entry", "disagree_algorithm_set", "disagree_algorithm_set", "disagree_empty_entry", "disagree_moved_across", "disagree_moved_across", "disagree_missing_entry", "disagree_missing_entry", "none"],
-        "C13" => &["differing_links_t1", "differing_links_t1_rules", "none", "nested_namesake", "nested_namesake", "nested_namesake", "link_removed", "disagree_product_digest", "disagree_extra_entry", "cosigned_next_to_differing", "cosigned_next_to_differing", "digest_partial_agreement", "digest_partial_agreement"],
+        "C13" => &["differing_links_t1", "differing_links_t1_rules", "none", "nested_namesake", "nested_namesake", "nested_namesake", "link_removed", "disagree_product_digest", "disagree_extra_entry", "cosigned_next_to_differing", "cosigned_next_to_differing", "digest_partial_agreement", "digest_partial_agreement", "sub_missing_link", "sub_rule", "sub_expired"],
         "C08" => &["insp_exit", "insp_notfound", "insp_rule", "insp_rule_named_like_step", "pre_expired", "pre_badsig", "pre_link_removed", "pre_rule", "pre_disagree", "sub_expired", "sub_expired_surplus", "sub_expired_surplus", "sub_insp_exit_surplus", "sub_insp_exit_surplus", "sub_rule_surplus", "sub_tampered", "none"],
         "C15" => &["no_steps", "no_steps_inner", "sub_wrong_signer", "sub_expired", "sub_missing_link", "sub_links_in_parent", "sub_rule", "sub_unauthorized_inner", "sub_tampered", "sub_insp_exit", "sub_insp_rule", "sub_dir_misnamed", "sub_dir_misnamed", "sub_misfiled", "sub_misfiled", "sub_rule_surplus", "sub_missing_link_surplus", "sub_expired_surplus", "sub_insp_exit_surplus", "none"],
         _ => &["none"],
     };
     let kind = *r.pick(kinds);
+    if prop == "C07" && r.chance(1, 2) {
+        if let Some(f) = inject_kind(prop, "co_sub_disagree", s, r, pool) {
+            return Some(f);
+        }
+    }
     inject_kind(prop, kind, s, r, pool)
 }
 
@@ -212,6 +217,13 @@ pub(crate) fn inject_kind(prop: &str, kind: &str, s: &mut Scenario, r: &mut Rng,
                 _ => (now - Duration::minutes(10), true),
             };
             l.expires = e;
+            // (the shape of the layout is another matter than its date: now and then an expired layout has
+            // nothing else that could be checked - no steps, hence no evidence to look for)
+            if fatal && r.chance(1, 5) {
+                l.steps.clear();
+                s.dir = SDir::default();
+            }
+            let l = layout_mut(&mut s.block)?;
             if kind.starts_with("offset") {
                 // an offset larger than the margin: a reader that ignored the offset would decide differently
                 l.offset_min = Some(*r.pick(&[-720, -210, -90, -30, 60, 330, 345, 570, 765, 840]));
@@ -223,7 +235,7 @@ pub(crate) fn inject_kind(prop: &str, kind: &str, s: &mut Scenario, r: &mut Rng,
             }
         }
         // ---------------------------------------------------------------- C02
-        "link_removed" | "link_wrong_signer" | "link_mislabel" | "link_tampered" | "link_corrupt" | "link_unauthorized" | "key_not_in_table" | "link_garbage" | "link_misfiled" | "link_wrong_type" | "pre_link_removed" | "ghost_authorized_prefix" | "twin_unauthorized" => {
+        "link_removed" | "link_wrong_signer" | "link_mislabel" | "link_tampered" | "link_corrupt" | "link_unauthorized" | "key_not_in_table" | "verifier_key_as_functionary" | "link_garbage" | "link_misfiled" | "link_wrong_type" | "pre_link_removed" | "ghost_authorized_prefix" | "twin_unauthorized" => {
             let l = layout_mut(&mut s.block)?.clone();
             let si = r.below(l.steps.len());
             trim_spares(&l, &mut s.dir, si);
@@ -280,6 +292,29 @@ pub(crate) fn inject_kind(prop: &str, kind: &str, s: &mut Scenario, r: &mut Rng,
                     let lm = layout_mut(&mut s.block)?;
                     lm.keys.retain(|&k| k != owner);
                     desc = "the signer is listed for the step but not defined in the layout's key table";
+                }
+                "verifier_key_as_functionary" => {
+                    // the step lists the id of a key that the verifier knows from elsewhere - the key the
+                    // layout itself is verified with - but that the layout's key table does not define; the
+                    // only evidence is validly signed by that key
+                    if !is_link {
+                        return None;
+                    }
+                    let x = *owners.first()?;
+                    if l.keys.contains(&x) || l.steps[si].pubkeys.iter().any(|&k| prefix8(pool, k) == prefix8(pool, x)) {
+                        return None;
+                    }
+                    let fname_x = format!("{}.{}.link", l.steps[si].name, prefix8(pool, x));
+                    if s.dir.files.iter().any(|f| f.0 == fname_x) {
+                        return None;
+                    }
+                    if let SFile::Block(b) = &mut s.dir.files[fi].1 {
+                        b.sigs = vec![SSig { label: x, signer: x, corrupt: false }];
+                    }
+                    s.dir.files[fi].0 = fname_x;
+                    let lm = layout_mut(&mut s.block)?;
+                    lm.steps[si].pubkeys.push(x);
+                    desc = "the only evidence is signed by a key the step lists but the layout's key table does not define (the key the layout is verified with)";
                 }
                 "ghost_authorized_prefix" | "twin_unauthorized" => {
                     // the only evidence is validly signed by a key X that the layout defines but does not
@@ -731,6 +766,43 @@ pub(crate) fn inject_kind(prop: &str, kind: &str, s: &mut Scenario, r: &mut Rng,
                 _ => Some(("C07", format!("links of a multi-party step disagree [{}] ({})", kind, l.steps[si].name), true)),
             }
         }
+        "co_sub_disagree" => {
+            // a multi-party step whose functionaries each hand in a sub-layout (the same one, or not): the
+            // evidence in ONE of the sub-directories reports another product digest in its last step, so the
+            // summaries the sub-layouts stand for differ
+            let l = layout_mut(&mut s.block)?.clone();
+            let si = (0..l.steps.len()).find(|&i| {
+                l.steps[i].threshold >= 2
+                    && evidence_files(&s.dir, &l.steps[i].name).iter().filter(|&&f| matches!(&s.dir.files[f].1, SFile::Block(b) if matches!(b.meta, SMeta::Layout(_)))).count() >= 2
+            })?;
+            let subs: Vec<usize> = evidence_files(&s.dir, &l.steps[si].name).into_iter().filter(|&f| matches!(&s.dir.files[f].1, SFile::Block(b) if matches!(b.meta, SMeta::Layout(_)))).collect();
+            let fi = subs[r.below(subs.len())];
+            let inner = match &s.dir.files[fi].1 {
+                SFile::Block(b) => match &b.meta {
+                    SMeta::Layout(il) => il.clone(),
+                    _ => return None,
+                },
+                _ => return None,
+            };
+            let last = inner.steps.last()?.name.clone();
+            let subname = s.dir.files[fi].0.trim_end_matches(".link").to_string();
+            let sd = &mut s.dir.subs.iter_mut().find(|x| x.0 == subname)?.1;
+            let mut changed = false;
+            for f in evidence_files(sd, &last) {
+                if let SFile::Block(b) = &mut sd.files[f].1 {
+                    if let SMeta::Link(lk) = &mut b.meta {
+                        if let Some(p) = lk.prods.last_mut() {
+                            p.1 = 21;
+                            changed = true;
+                        }
+                    }
+                }
+            }
+            if !changed {
+                return None;
+            }
+            Some(("C07", format!("the sub-layouts handed in for a multi-party step stand for different artifacts [co_sub_disagree] ({})", l.steps[si].name), true))
+        }
         // ---------------------------------------------------------------- C08
         "insp_rule_named_like_step" => {
             // an inspection that shares its name with a step is still held to its own rules
@@ -856,6 +928,10 @@ pub(crate) fn inject_kind(prop: &str, kind: &str, s: &mut Scenario, r: &mut Rng,
                     }
                     "sub_expired" => {
                         layout_mut(b)?.expires = now - Duration::seconds(1);
+                        // (now and then an expired sub-layout without steps: nothing but its date is wrong)
+                        if r.chance(1, 4) {
+                            layout_mut(b)?.steps.clear();
+                        }
                         desc = "the sub-layout is expired".into();
                     }
                     "sub_insp_exit" | "sub_insp_rule" => {
@@ -994,6 +1070,9 @@ pub fn run(cfg: &Cfg, prop: &str) {
             "C15" => 1 + r.below(2),
             // (every third C08 scenario has a delegated step, so that the sub-layout faults apply)
             "C08" | "C13" if i % 3 == 0 => 1,
+            // (every third C07 scenario: two functionaries of a threshold-2 step hand in one and the same
+            // sub-layout, each with evidence in a directory of their own)
+            "C07" if i % 3 == 0 => 1,
             "C13" | "C08" => r.below(2),
             _ => r.below(2),
         };
@@ -1001,7 +1080,7 @@ pub fn run(cfg: &Cfg, prop: &str) {
         // some of them with rules about the link files that a sibling's inspection leaves behind)
         let siblings = (prop == "C13" || prop == "C08") && i % 6 == 0;
         let allow_insp = matches!(prop, "C08") || siblings || r.chance(1, 4);
-        let mut g = Gen { r: &mut r, pool: &pool, insp_counter, force_delegate: prop == "C15" || ((prop == "C06" || prop == "C08" || prop == "C13") && i % 3 == 0), multi_party: (prop == "C07" && i % 3 != 0) || (prop == "C13" && i % 3 == 1), co_delegate: prop == "C15" && i % 3 == 0, now: base_now(), reuse_keys: vec![], inner_insp_always: siblings };
+        let mut g = Gen { r: &mut r, pool: &pool, insp_counter, force_delegate: prop == "C15" || ((prop == "C06" || prop == "C08" || prop == "C13") && i % 3 == 0), multi_party: (prop == "C07" && i % 3 != 0) || (prop == "C13" && i % 3 == 1), co_delegate: (prop == "C15" || prop == "C07") && i % 3 == 0, now: base_now(), reuse_keys: vec![], inner_insp_always: siblings };
         let mut s = g.valid(depth, allow_insp);
         insp_counter = g.insp_counter;
         // (C06: where the verifier sits - zones west and east of Greenwich, whole and fractional hours)
@@ -1046,6 +1125,7 @@ pub fn run(cfg: &Cfg, prop: &str) {
         // - and at the same place: the faulty scenario replaces the genuine one in the very directory that
         // was just verified (same paths; files of unchanged size keep their modification time)
         let mut place = None;
+        let mut base_answer = None;
         if !s.faults.is_empty() && (prop == "C01" || i % 2 == 0) {
             let here = tempfile::Builder::new().prefix("itv-e2e-place-").tempdir().unwrap();
             let b = crate::e2e::run_at(&pool, &base, here.path(), false);
@@ -1053,12 +1133,22 @@ pub fn run(cfg: &Cfg, prop: &str) {
             sink.oracle(!b.panicked, "verification panicked", &b.op);
             if i % 4 != 2 {
                 place = Some(here);
+                base_answer = Some((b.answer.clone(), b.op.clone()));
             }
         }
         let out = match &place {
             Some(here) => crate::e2e::run_at(&pool, &s, here.path(), false),
             None => crate::e2e::run(&pool, &s),
         };
+        // ... and the genuine scenario once more at that place, after the faulty one was (mostly) refused
+        // there: what it answered before, it answers again - a failed verification leaves nothing behind
+        if let (Some(here), Some((before, op))) = (&place, &base_answer) {
+            if i % 8 == 0 || prop == "C13" {
+                let again = crate::e2e::run_at(&pool, &base, here.path(), false);
+                sink.stat(if again.answer == *before { "history/base-again-same" } else { "history/base-again-DIFFERENT" });
+                sink.oracle(again.answer == *before, "the same inputs verified again at the same place, after another verification there, gave a different result", op);
+            }
+        }
         drop(place);
         let fatal: Vec<&Fault> = s.faults.iter().filter(|f| f.2).collect();
         let class = if s.faults.is_empty() { "valid".to_string() } else { s.faults.iter().map(|f| f.0).collect::<Vec<_>>().join("+") };
@@ -1099,6 +1189,18 @@ pub fn run(cfg: &Cfg, prop: &str) {
             let want = s.name.as_ref().map(|n| crate::proto::hexs(n)).unwrap_or_else(|| "-".into());
             let got = out.answer.split(' ').nth(1).unwrap_or("?").to_string();
             sink.oracle(got == want, "the summary link does not carry the requested name", &replay);
+        }
+        // ---- how the link directory's path is spelled does not matter: named through a symbolic link and back
+        //      out of it, it is the directory the operating system says it is - for the layout's own evidence
+        //      and for the sub-directories of delegated steps alike
+        if (prop == "C15" && i % 2 == 0) || i % 10 == 0 {
+            *crate::e2e::SPELL_LINK_DIR.lock().unwrap() = true;
+            let sp = crate::e2e::run(&pool, &s);
+            *crate::e2e::SPELL_LINK_DIR.lock().unwrap() = false;
+            if prop == "C15" {
+                sink.oracle(sp.answer == out.answer, "the outcome depends on how the path of the link directory is spelled (through a symbolic link and `..`)", &replay);
+            }
+            sink.stat(if sp.answer == out.answer { "link-dir-spelling/same" } else { "link-dir-spelling/DIFFERENT" });
         }
         // ---- the order in which a directory lists its entries does not matter: the same link directory made
         //      on a file system that lists by age (tmpfs), entries created in one order and in the opposite one
